@@ -124,6 +124,11 @@ def build_inputs(rng, sdir):
         d["when"] = rng.choice(WHENS) if rng.random() < 0.35 else rng.choice([w for w in WHENS if w[-1] == "Z" or w[-6] in "+-"])
         d["name"] = rng.choice(["istanbul", "İSTANBUL", "straße", "ǅ", "abc"])
         d["num"] = rng.choice(["12", "1.5", 7, 2.5, "0x10"])
+    # competing spellings of one key: the first document has one, the second both, the third the other one; the rules use a third spelling
+    docs[0]["bucket_name"] = "x"
+    docs[1]["BucketName"] = "y"
+    docs[1]["bucket_name"] = "x"
+    docs[2]["BucketName"] = "x"
     shutil.rmtree(sdir, ignore_errors=True)
     os.makedirs(os.path.join(sdir, "d"))
     os.makedirs(os.path.join(sdir, "t", "tests"))
@@ -154,6 +159,8 @@ def build_inputs(rng, sdir):
         if f.get("default"):
             f["default"] = []
         t = gen.pfile(f)
+        if i == 1:
+            t += 'rule f1_spelling {\n    bucketName == "x" <<spelling>>\n}\nrule f1_spelling2 {\n    Bucket_Name == "y" or bucketName == "y"\n}\n'
         if i == 2:
             # key filters over several resources, failing for each: every selected entry shows up in the report, in document order
             t += ('rule f2_keys_in {\n    Resources[ keys in ["r0", "r1", "r2", "r3", "r4", "x"] ].Type == "nope" <<keys in>>\n    Resources[ keys not in ["zz"] ].Type == "nope"\n}\n'
